@@ -1204,6 +1204,9 @@ def builtin_iter(I, st, args, kwargs, node):
             if h.concrete:
                 return [(st, st.alloc(HIter(list(h.items.keys()), 0)))]
             return dict_method(I, st, a, h, "__iter__", [], {}, node)
+        if isinstance(h, HSet) and h.items is not None:
+            # iter(set) of a set with known elements: some enumeration (here: the recorded order)
+            return [(st, st.alloc(HIter(list(h.items), 0)))]
     if isinstance(a, SSeq):
         return [(st, st.alloc(HIter(a, 0)))]
     if isinstance(a, tuple):
